@@ -15,14 +15,14 @@ import (
 
 // pset is the reference's own parameter set.
 type pset struct {
-	Enc, Comp  string
-	Level      *int
-	Bits       *int
-	TID        string
-	Reconnect  bool
-	TGID       string
-	TGCount    int
-	TGIdx      int
+	Enc, Comp string
+	Level     *int
+	Bits      *int
+	TID       string
+	Reconnect bool
+	TGID      string
+	TGCount   int
+	TGIdx     int
 }
 
 func ip(v int) *int { return &v }
